@@ -158,6 +158,9 @@ func (r *Run) Violation(sig, detail string, replay any) bool {
 		return true
 	}
 	dir := filepath.Join(r.VerifDir, "replays")
+	if d := os.Getenv("VERIF_EVIDENCE_DIR"); d != "" {
+		dir = filepath.Join(d, "replays")
+	}
 	os.MkdirAll(dir, 0o755)
 	path := filepath.Join(dir, fmt.Sprintf("%s-%d.json", r.Prop, len(r.newViol)))
 	b, _ := json.MarshalIndent(map[string]any{"property": r.Prop, "signature": sig, "detail": detail, "replay": replay, "tier": r.Tier}, "", " ")
@@ -215,6 +218,9 @@ func (r *Run) Finish(cov Coverage) {
 	}
 	b, _ := json.MarshalIndent(evd, "", " ")
 	dir := filepath.Join(r.VerifDir, "evidence")
+	if d := os.Getenv("VERIF_EVIDENCE_DIR"); d != "" {
+		dir = d // runs against scratch copies of the repository (seeded changes) must not overwrite the evidence of the real tree
+	}
 	os.MkdirAll(dir, 0o755)
 	if err := os.WriteFile(filepath.Join(dir, r.Prop+".json"), b, 0o644); err != nil {
 		fmt.Fprintln(os.Stderr, "cannot write evidence:", err)
